@@ -17,7 +17,7 @@ var (
 	c04Left  = []string{"LEFT JOIN", "LEFT HASH_JOIN", "PARALLEL LEFT JOIN", "PARALLEL LEFT HASH_JOIN"}
 	c04Right = []string{"RIGHT JOIN", "RIGHT HASH_JOIN", "PARALLEL RIGHT JOIN", "PARALLEL RIGHT HASH_JOIN"}
 	c04Floor = []string{"type.inner", "type.left", "type.right", "on.equi", "on.nonequi", "on.or", "on.multi", "on.flipped", "keys.str", "keys.num", "dupkeys",
-		"left.empty", "right.empty", "unmatched.left", "unmatched.right", "meta.permute", "meta.flip", "keys.mixed-kind", "alias.prefix", "keys.nested-path", "keys.many"}
+		"left.empty", "right.empty", "unmatched.left", "unmatched.right", "meta.permute", "meta.flip", "keys.mixed-kind", "alias.prefix", "keys.nested-path", "keys.many", "keys.native", "operands.swapped"}
 )
 
 func init() {
@@ -351,10 +351,28 @@ func c04Diff(c *fw.Case, par bool) {
 		}
 	}
 	respellAliases := strings.NewReplacer("x.", aliases[0]+".", "y.", aliases[1]+".")
+	native := !mixed && (force == "keys.native" || (force == "" && c.Chance(0.12)))
+	if native {
+		feats = append(feats, "keys.native")
+	}
+	swapped := false
 	runOne := func(strategy, onText, what string, reps int) bool {
 		sql := "SELECT * FROM l " + aliases[0] + " " + strategy + " r " + aliases[1] + " ON " + respellAliases.Replace(onText)
+		if swapped {
+			// the operands the other way round, under the very same ON text
+			sql = "SELECT * FROM r " + aliases[1] + " " + strategy + " l " + aliases[0] + " ON " + respellAliases.Replace(onText)
+		}
 		for rep := 0; rep < reps; rep++ {
 			doc := DocOf(l, r)
+			if native {
+				// key columns as natively typed Go integers (a document built in Go)
+				for _, col := range []string{"a", "k"} {
+					nativize(c, doc["l"].([]any), col)
+				}
+				for _, col := range []string{"m", "j"} {
+					nativize(c, doc["r"].([]any), col)
+				}
+			}
 			o := Run(doc, sql)
 			evals++
 			detail := map[string]any{"sql": sql, "doc": doc, "expected_multiset": want, "observed": o.Describe(), "what": what, "repetition": rep}
@@ -383,6 +401,26 @@ func c04Diff(c *fw.Case, par bool) {
 		}
 		feats = append(feats, "strategy."+s)
 		if !runOne(s, onSQL, "strategy "+s, reps) {
+			c.Feature(feats...)
+			return
+		}
+	}
+	if !par {
+		// the same ON text once more with the operands swapped: for an inner
+		// join the same pairs, for an outer join the mirrored spelling
+		// preserves the same side
+		mirror := strategies
+		switch jtype {
+		case "left":
+			mirror = c04Right
+		case "right":
+			mirror = c04Left
+		}
+		swapped = true
+		feats = append(feats, "operands.swapped")
+		ok := runOne(gen.Pick(c.R, mirror), onSQL, "operands swapped, same ON text", 1)
+		swapped = false
+		if !ok {
 			c.Feature(feats...)
 			return
 		}
